@@ -214,10 +214,13 @@ TableInjective == /\ \A k1, k2 \in DOMAIN table : table[k1] = table[k2] => k1 = 
 \* C01/C04 "and only then": two unified entities with the same record are the same entity.
 UnifiedCats == (TypeCats \ {"Decltype", "Auto", "Class"}) \cup NameCats \cup {"Symbol", "Literal", "Logogram",
                "Linkage", "CallConv"}
-\* (The constants are pairwise distinct by ConstsOK, so only pairs with a created entity need a look.)
+\* Pairs of constants are distinct by ConstsOK.  A created entity may look like a constant only where no
+\* property routes the request to the constant: the routes are identifier, named type and linkage (C13), so
+\* e.g. get_symbol(delete, void) or get_calling_convention("") are allowed to be look-alikes.
 CreatedIds == (NConst + 1)..NN
+RouteCats == {"Identifier", "As_type_id", "Linkage"}
 OnlyThen == \A i \in CreatedIds : \A j \in 1..NN :
-               (N(i) = N(j) /\ N(i).c \in UnifiedCats) => i = j
+               (N(i) = N(j) /\ N(i).c \in UnifiedCats /\ (j > NConst \/ N(i).c \in RouteCats)) => i = j
 
 \* C04: one Identifier per spelling among everything reachable
 OneIdentifierPerSpelling ==
